@@ -298,49 +298,71 @@ Fixpoint find_route (path : str) (rs : list route) (j : nat) : option (nat * rou
   | r :: rest => if has_prefix path (r_path r) then Some (j, r) else find_route path rest (S j)
   end.
 
-(* pure part: which route answers, given the candidate hosts' route lists *)
-Fixpoint find_host (path : str) (hosts : list (list route)) (i : nat) : option (rid * route) :=
-  match hosts with
-  | [] => None
-  | rs :: rest => match find_route path rs 0 with
-                  | Some (j, r) => if Nat.eqb (r_ntargets r) 0 then find_host path rest (S i) else Some ((i, j), r)
-                  | None => find_host path rest (S i)
-                  end
-  end.
-
 (* the pick given the cursor value it read: n == 1 does not touch the cursor *)
 Definition pick_target (r : route) (cursor : N) : outcome nat :=
   if Nat.eqb (r_ntargets r) 1 then Ok O else slot (r_ring r) cursor.
 
 Definition eq_rid (a b : rid) : bool := Nat.eqb (fst a) (fst b) && Nat.eqb (snd a) (snd b).
 
-(* the sequential lookup: result and new shared state *)
-Definition lookup (hosts : list (list route)) (path host : str) (s : lk_shared) : outcome (option lk_result) * lk_shared :=
-  match find_host path hosts 0 with
-  | None => (Ok None, s)
-  | Some (id, r) =>
-      match pick_target r (lk_cursor s id) with
-      | Ok t =>
-          let cur' := if Nat.eqb (r_ntargets r) 1 then lk_cursor s
-                      else fun x => if eq_rid x id then N.modulo (lk_cursor s id + 1) two64 else lk_cursor s x in
-          let loc := match r_redirect r with Some tm => Some (rd_own tm path host) | None => None end in
-          let red' := lk_redirect s in     (* since ddf101c the URL is built on a copy: no shared write *)
-          (Ok (Some {| lk_route := id; lk_target := t; lk_location := loc |}),
-           {| lk_cursor := cur'; lk_redirect := red' |})
-      | Err k => (Err k, s)
-      | Panic => (Panic, s)
-      end
-  end.
+(* rrPicker's shared effect on the route [id] *)
+Definition advance (s : lk_shared) (id : rid) (r : route) : lk_shared :=
+  if Nat.eqb (r_ntargets r) 1 then s
+  else {| lk_cursor := fun x => if eq_rid x id then N.modulo (lk_cursor s id + 1) two64 else lk_cursor s x;
+          lk_redirect := lk_redirect s |}.     (* since ddf101c the URL is built on a copy: no shared write *)
 
-(* the same with the shared effects removed: the caller supplies the one cursor value *)
-Definition lookup_pure (hosts : list (list route)) (path host : str) (cursor_of : rid -> N) : outcome (option lk_result) :=
-  match find_host path hosts 0 with
-  | None => Ok None
-  | Some (id, r) =>
-      match pick_target r (cursor_of id) with
-      | Ok t => Ok (Some {| lk_route := id; lk_target := t;
-                            lk_location := match r_redirect r with Some tm => Some (rd_own tm path host) | None => None end |})
-      | Err k => Err k
-      | Panic => Panic
+(* "Skipping redirect with same scheme, host and path": RedirectURL.Scheme == proto && .Host == req.Host &&
+   .Path == req.URL.Path, [proto] = X-Forwarded-Proto, else the scheme of the connection.  On the modelled
+   domain (no query; hosts without '/', paths starting with '/') this is equality of the URL texts. *)
+Definition self_url (proto host path : str) : str := proto ++ [58; 47; 47]%N ++ host ++ path.
+Definition route_location (r : route) (path host : str) : option str :=
+  match r_redirect r with Some tm => Some (rd_own tm path host) | None => None end.
+Definition self_redirect (r : route) (path host proto : str) : bool :=
+  match route_location r path host with Some u => beq u (self_url proto host path) | None => false end.
+
+(* the sequential lookup from candidate host [i] on: result and new shared state.  For every candidate host:
+   the first route whose prefix matches decides (no targets: next host); a target is PICKED (the cursor of a
+   route with several targets advances) and only then a redirect to the request's own URL is skipped:
+   the skipped route's cursor has advanced although it does not answer. *)
+Fixpoint lookup_from (path host proto : str) (hosts : list (list route)) (i : nat) (s : lk_shared)
+  : outcome (option lk_result) * lk_shared :=
+  match hosts with
+  | [] => (Ok None, s)
+  | rs :: rest =>
+      match find_route path rs 0 with
+      | None => lookup_from path host proto rest (S i) s
+      | Some (j, r) =>
+          if Nat.eqb (r_ntargets r) 0 then lookup_from path host proto rest (S i) s else
+          match pick_target r (lk_cursor s (i, j)) with
+          | Ok t =>
+              let s' := advance s (i, j) r in
+              if self_redirect r path host proto then lookup_from path host proto rest (S i) s'
+              else (Ok (Some {| lk_route := (i, j); lk_target := t; lk_location := route_location r path host |}), s')
+          | Err k => (Err k, s)
+          | Panic => (Panic, s)
+          end
       end
   end.
+Definition lookup (hosts : list (list route)) (path host proto : str) (s : lk_shared) :=
+  lookup_from path host proto hosts 0 s.
+
+(* the same with the shared effects removed: the caller supplies the cursor values *)
+Fixpoint lookup_pure_from (path host proto : str) (hosts : list (list route)) (i : nat) (cursor_of : rid -> N)
+  : outcome (option lk_result) :=
+  match hosts with
+  | [] => Ok None
+  | rs :: rest =>
+      match find_route path rs 0 with
+      | None => lookup_pure_from path host proto rest (S i) cursor_of
+      | Some (j, r) =>
+          if Nat.eqb (r_ntargets r) 0 then lookup_pure_from path host proto rest (S i) cursor_of else
+          match pick_target r (cursor_of (i, j)) with
+          | Ok t =>
+              if self_redirect r path host proto then lookup_pure_from path host proto rest (S i) cursor_of
+              else Ok (Some {| lk_route := (i, j); lk_target := t; lk_location := route_location r path host |})
+          | Err k => Err k
+          | Panic => Panic
+          end
+      end
+  end.
+Definition lookup_pure (hosts : list (list route)) (path host proto : str) (cursor_of : rid -> N) :=
+  lookup_pure_from path host proto hosts 0 cursor_of.
